@@ -31,6 +31,39 @@ def kw_split(res, con):
     return res.params[pname], list(values)
 
 
+def run_isolated(rep, name, model, ob, timeout=120):
+    """native replays run in a forked child: a crash of the real code must not take the checker down."""
+    import multiprocessing as mp
+    ctx = mp.get_context('fork')
+    rd, wr = ctx.Pipe(duplex=False)
+
+    def child():
+        try:
+            r = rep(name, model, ob)
+        except Exception as e:   # noqa
+            r = {'reproduced': False, 'error': repr(e)}
+        try:
+            wr.send(json.loads(json.dumps(r, default=str)))
+        finally:
+            wr.close()
+    p = ctx.Process(target=child)
+    p.start()
+    wr.close()
+    r = None
+    if rd.poll(timeout):
+        try:
+            r = rd.recv()
+        except EOFError:
+            r = None
+    p.join(5)
+    if p.is_alive():
+        p.kill()
+        return {'reproduced': False, 'error': 'native replay timed out'}
+    if r is None:
+        return {'reproduced': True, 'native_crash': 'the real function crashed on the solver input (exit code %s)' % p.exitcode}
+    return r
+
+
 def norm_name(n):
     n = re.sub(r'^\[\w+=\d+\]', '', n)
     n = re.sub(r'@L\d+', '', n)
@@ -187,10 +220,7 @@ class Check:
                 rep = ob.meta.get('replayer') if ob is not None else None
                 if not rep:
                     break
-                try:
-                    r = rep(name, model, ob)
-                except Exception as e:   # noqa
-                    r = {'reproduced': False, 'error': repr(e)}
+                r = run_isolated(rep, name, model, ob)
                 if replayed is None or (r and r.get('reproduced')):
                     replayed, used = r, (name, model, ob, backend, reason)
                 if r and r.get('reproduced'):
